@@ -172,6 +172,8 @@ func runC12Scripted(c *core.Ctx, nontriv *atomic.Int64) bool {
 			}
 		}
 	}
+	vbct.Script = nil
+	powNonceSweeps(c, "C12", 2)
 	c.Set("scripted_mine_configurations", int64(len(jobs)))
 	c.Sample(map[string]interface{}{"scripted_mine": "batch 3 lane 63 holds targetHash, all other lanes and batches the smallest unqualified hash", "expect": "nonce 3*64+63"})
 	_ = math.Pi
